@@ -10,8 +10,12 @@ use serde_json::json;
 
 fn is_bel(l: &altrios_core::prelude::Locomotive) -> bool { matches!(l.loco_type, PowertrainType::BatteryElectricLoco(_)) }
 
-pub fn oracle(st: &ConsistStep, post: &Consist) -> Vec<String> {
+pub const KNOWN_NEG_LIMIT: &str = "C10/1 a unit whose published traction limit is negative (battery at minimum SOC cannot cover its auxiliary load) is assigned negative traction while the consist pushes";
+
+/// returns (violations, known findings exhibited)
+pub fn oracle2(st: &ConsistStep, post: &Consist) -> (Vec<String>, Vec<String>) {
     let mut f = Vec::new();
+    let mut known = Vec::new();
     let p = consist_rated(post);
     let tol = 1e-7 * p;
     let req = st.pwr;
@@ -23,8 +27,14 @@ pub fn oracle(st: &ConsistStep, post: &Consist) -> Vec<String> {
         let lim = l.state.pwr_out_max.value;
         let em = edrv_max(l);
         if req > 0.0 {
-            if sh > lim + tol.max(1e-6 * lim.abs()) { f.push(format!("unit {} asked for traction {} above its published limit {}", i, sh, lim)); }
-            if sh < -tol { f.push(format!("unit {} brakes ({}) while the consist pushes ({})", i, sh, req)); }
+            if lim < 0.0 {
+                // the class of the known finding: decided from the published limit alone
+                if sh < 0.0 { known.push(KNOWN_NEG_LIMIT.to_string()); }
+                else if sh > tol { f.push(format!("unit {} with negative published limit {} asked for traction {}", i, lim, sh)); }
+            } else {
+                if sh > lim + tol.max(1e-6 * lim.abs()) { f.push(format!("unit {} asked for traction {} above its published limit {}", i, sh, lim)); }
+                if sh < -tol { f.push(format!("unit {} brakes ({}) while the consist pushes ({})", i, sh, req)); }
+            }
         }
         if req < 0.0 {
             if sh > tol { f.push(format!("unit {} pushes ({}) while the consist brakes ({})", i, sh, req)); }
@@ -44,29 +54,33 @@ pub fn oracle(st: &ConsistStep, post: &Consist) -> Vec<String> {
             if !close(conv_sum, deficit, 1e-7, tol) { f.push(format!("battery-first: fuel-burning units carry {} but the battery units cannot cover only {}", conv_sum, deficit)); }
         }
     }
-    f
+    known.dedup();
+    (f, known)
 }
+pub fn oracle(st: &ConsistStep, post: &Consist) -> Vec<String> { oracle2(st, post).0 }
 
-pub fn consist_step_case(id: String, st: &ConsistStep, kind: &str, oracle: &dyn Fn(&ConsistStep, &Consist) -> Vec<String>) -> Case {
+pub fn consist_step_case(id: String, st: &ConsistStep, kind: &str, oracle: &dyn Fn(&ConsistStep, &Consist) -> (Vec<String>, Vec<String>)) -> Case {
     let coq = format!("x_consist_step {} {} {}", coq_consist(&st.pre), cf(st.pwr), cf(st.dt));
     let nb = st.pre.loco_vec.iter().filter(|l| is_bel(l)).count();
     let n = st.pre.loco_vec.len();
     let pd = match &st.pre.pdct { PowerDistributionControlType::Proportional(_) => "prop", PowerDistributionControlType::RESGreedy(_) => "greedy", _ => "other" };
     let mut tags = vec![format!("units:{}", n), format!("mix:{}", if nb == 0 { "conv" } else if nb == n { "bel" } else { "mixed" }),
         format!("policy:{}", pd), format!("mode:{}", st.mode)];
-    let (outcome, fails) = match &st.post {
+    let mut in_domain = true;
+    let (outcome, (fails, known)) = match &st.post {
         Ok(post) => {
             tags.push("result:ok".into());
             if post.state.pwr_out_deficit.value > 0.0 { tags.push("deficit:yes".into()); }
             if post.state.pwr_regen_deficit.value > 0.0 { tags.push("regen_deficit:yes".into()); }
+            if post.loco_vec.iter().any(|l| l.state.pwr_out_max.value < 0.0) { tags.push("neg_limit:yes".into()); in_domain = false; }
             (Outcome::Ok(outs_consist(post)), oracle(st, post))
         }
-        Err((-1, m)) => { tags.push("result:panic".into()); (Outcome::Panic(m.clone()), vec![]) }
-        Err((c, m)) => { tags.push(format!("result:err{}", c)); (Outcome::Err(*c, m.clone()), vec![]) }
+        Err((-1, m)) => { tags.push("result:panic".into()); (Outcome::Panic(m.clone()), (vec![], vec![])) }
+        Err((c, m)) => { tags.push(format!("result:err{}", c)); (Outcome::Err(*c, m.clone()), (vec![], vec![])) }
     };
     Case { id, kind: kind.into(), coq, outcome, tags,
         input: json!({"consist_yaml": serde_yaml::to_string(&st.pre).unwrap_or_default(), "pwr": fjson(st.pwr), "dt": fjson(st.dt)}),
-        oracle_fail: fails, known: vec![], in_domain: true }
+        oracle_fail: fails, known, in_domain }
 }
 
 pub fn run(seed: u64, n: usize, sink: &mut Sink) {
@@ -76,7 +90,7 @@ pub fn run(seed: u64, n: usize, sink: &mut Sink) {
         let con = rand_consist(&mut r);
         let steps = consist_trace(&mut r, con, 10.min(n - made));
         for (i, st) in steps.iter().enumerate() {
-            sink.put(consist_step_case(format!("consist_step/{}/{}", t, i), st, "consist_step", &oracle));
+            sink.put(consist_step_case(format!("consist_step/{}/{}", t, i), st, "consist_step", &oracle2));
             made += 1;
         }
         t += 1;
